@@ -5,6 +5,30 @@ TRUST = ("Trusted: rustc nightly MIR construction and callee resolution; pegv's 
          "combinators; dependencies (proc_macro2, quote, anyhow, crc, colored, nohash-hasher) not analysed internally. ")
 
 CHECKS = {
+ "C04": {
+  "category": "other",
+  "technique": "unsafe-precondition discharge from dominating path conditions (MIR), who-may-call, constructor/cursor invariant, panic inventory",
+  "text": "Sound for all inputs: the only unsafe operations in the runtime are the unchecked slice in the unsafe cursor-advance fn and the 9 terminal-matcher calls to it; at each call the length is proven from the dominating branch conditions to be the UTF-8 length of a matched prefix of the same state variable (no redefinition in between); ParseState is only built by new/advance*/clone moving start_index and partial_string by the same amount; insensitive matchers only ever receive lower-case ASCII constants (instances) and the generator selects them only under a successful is_ascii test emitting the lower-cased literal (for all grammars); generated code has no unsafe block/call; every panic-capable construct reachable from generated parsers is discharged by a guard, another rule or a reasoned table entry.",
+  "note": TRUST + "std semantics of starts_with/len_utf8/is_ascii*/to_ascii_lowercase/chars().next() are axioms. Extern functions must return in-range boundary lengths (checked advance panics otherwise, never UB). Stack depth excluded by the property.",
+ },
+ "C05": {
+  "category": "other",
+  "technique": "dataflow identities over MIR of cached wrappers (key/value/ownership) + read-set rule for error payloads",
+  "text": "Decides the structural clauses whose conjunction is memo transparency: every get/insert key is cache_key(entry state) and cache_key is the absolute offset; cache fields are private to their wrapper and never evicted; a miss stores a clone of exactly the returned value and a hit returns a clone of exactly the stored value (result + resumed state); every parse_advanced starts from an empty cache; error payloads are only moved, folded or displayed. The transparency statement itself (same tree with/without @memoize) is argued from these clauses plus purity (C20), not computed for particular grammars.",
+  "note": TRUST + "User hooks assumed pure (stated in the property). I-level on the analysed wrappers.",
+ },
+ "C07": {
+  "category": "other",
+  "technique": "loop rule (seed dominance, guarded cyclic paths, exit value) over MIR of @leftrec wrappers + finite-domain evaluation of the progress test",
+  "text": "For every analysed @leftrec wrapper and all inputs: a sentinel failure is stored under the entry key before the first body evaluation; every cyclic path of the growth loop re-stores a new best result guarded by is_further_than(new.state, best.state) or by (new Ok, best Err); every exit returns the best result as last stored; is_further_than is decided strict over the 3 orderings of two offsets. Hence the loop terminates after at most input-length+2 iterations given a terminating body. The shape of the grown tree (left nesting) is not decided here.",
+  "note": TRUST + "Termination of the rule body is the property's well-formedness assumption.",
+ },
+ "C20": {
+  "category": "other",
+  "technique": "item/type/effect rules: no statics, Freeze field types, per-call construction of ParseGlobal, sink allow-list over the call graph",
+  "text": "Purity and schedule independence decided structurally: no static/thread_local in the runtime or any generated module; no interior mutability in any parse data type (runtime and 553 generated fields); all 119 parse_advanced impls build ParseState/ParseGlobal locally and lend only a borrow; no call reachable from generated parsers (7000+ call sites) enters env/fs/time/thread/sync/process APIs or I/O outside tracer/error display. By Rust's aliasing rules a parse then reads only its arguments and writes only its own stack object.",
+  "note": TRUST + "User hooks are outside (assumed pure by the property); std collections are trusted to have no observable global state.",
+ },
  "C06": {
   "category": "other",
   "technique": "must-pass-through / dominance rules over MIR of generated memo wrappers",
@@ -21,4 +45,4 @@ CHECKS = {
 
 _PENDING = "check not built yet in this round (design in DESIGN.md §3); no verdict is claimed until it is"
 NOT_APPLICABLE = {pid: _PENDING for pid in
-  ["C01","C02","C03","C04","C05","C07","C08","C09","C10","C11","C12","C13","C14","C15","C16","C17","C18","C20"]}
+  ["C01","C02","C03","C08","C09","C10","C11","C12","C13","C14","C15","C16","C17","C18"]}
